@@ -42,7 +42,7 @@ ASSUMPTIONS = [
 
 NETWORK_FAULTS = {"duplicate", "delay", "drop", "late_before_next", "replay_earlier", "replay_create"}
 MANIPS = ["flip_identifier", "flip_key", "flip_auth", "flip_candidates", "flip_cid", "substitute", "swap_other",
-          "replay_earlier", "duplicate", "delay", "drop", "late_before_next", "flip_candidates_then_original"]
+          "replay_earlier", "duplicate", "delay", "drop", "late_before_next", "flip_candidates_then_original", "impostor"]
 
 
 def parse_created(msg: bytes) -> dict | None:
@@ -189,6 +189,21 @@ class Run:
                     donor = self.stash[m["arg"] % len(self.stash)]
                     data = bytearray(fl.data[:23] + fl.data[23:27] + donor[27:]) if m["arg"] % 2 else bytearray(
                         fl.data[:29] + donor[29:])
+                elif kind == "impostor":
+                    # the create meant for the selected first hop is swallowed by ANOTHER peer the originator knows and
+                    # has verified; that peer runs the stock responder on it with its own keys and answers from its own
+                    # address; the selected peer's answer is lost
+                    if fl.dst != origin.address:
+                        return None
+                    mine = [d for (s_, d_, d) in self.creates if s_ == fl.dst and d_ == fl.src
+                            and parse_cell(d, w.prefix)["circuit_id"] == cell["circuit_id"]]
+                    others = [nd for nd in w.nodes[1:] if nd.address != fl.src]
+                    if not mine or not others:
+                        return None
+                    imp = others[m["arg"] % len(others)]
+                    self.applied.append((kind, n))
+                    w.net.inject(origin.address, imp.address, mine[-1], note="create diverted to an impostor")
+                    return []
                 elif kind == "replay_earlier":
                     self.stash.append(fl.data)
                     self.replay_later = (fl.src, fl.dst, bytes(fl.data))
